@@ -562,7 +562,23 @@ func (s *HASyncer) performFullSync() error {
 		return fmt.Errorf("decode response: %w", err)
 	}
 
-	// Apply full sync
+	// Apply full sync: the snapshot replaces the standby's table, so sessions the active
+	// deleted while we were disconnected must go
+	inSnapshot := make(map[string]struct{}, len(msg.Sessions))
+	for i := range msg.Sessions {
+		inSnapshot[msg.Sessions[i].SessionID] = struct{}{}
+	}
+	for _, old := range s.store.GetAllSessions() {
+		if _, ok := inSnapshot[old.SessionID]; !ok {
+			if err := s.store.DeleteSession(old.SessionID); err != nil {
+				s.logger.Warn("Failed to remove stale session",
+					zap.String("session_id", old.SessionID),
+					zap.Error(err),
+				)
+			}
+		}
+	}
+
 	s.receivedMu.Lock()
 	s.receivedSessions = make(map[string]*SessionState)
 	for i := range msg.Sessions {
